@@ -5,6 +5,10 @@
 //	         fuzz of every encoded message; op lines for the Lean model
 //	proto    full four-round sessions, restart at every round boundary through
 //	         Encode/Decode, foreign session / curve rejection
+//	hist     session HISTORIES in one process: 2..4 sessions (same / different
+//	         curves) interleaved in every kind of order, every message consumed
+//	         in memory and through bytes at later points; the whole process
+//	         state observed after every step and compared with the pure model
 //	circuit  the embedded circuit against crypto/sha256 (validation)
 package main
 
@@ -15,7 +19,7 @@ import (
 
 func main() {
 	if len(os.Args) < 2 {
-		fmt.Fprintln(os.Stderr, "usage: c18 codec|proto|circuit [flags]")
+		fmt.Fprintln(os.Stderr, "usage: c18 codec|proto|hist|circuit [flags]")
 		os.Exit(2)
 	}
 	switch os.Args[1] {
@@ -23,6 +27,8 @@ func main() {
 		os.Exit(codecMode(os.Args[2:]))
 	case "proto":
 		os.Exit(protoMode(os.Args[2:]))
+	case "hist":
+		os.Exit(histMode(os.Args[2:]))
 	case "circuit":
 		os.Exit(circuitMode(os.Args[2:]))
 	default:
